@@ -60,11 +60,14 @@ def main():
                 v16 = tm.var('v16', W)
                 bs = T.be32(v16)
                 key = (bs + sym_bytes('tail', max(0, L - 32)))[:L] if L >= 32 else bs[32 - L:]
-                k, err = m.call(SECEC + 'NewPrivateKey', [m.new_byte_slice(key, 'key')])
+                key_s = m.new_byte_slice(key, 'key')
+                k, err = m.call(SECEC + 'NewPrivateKey', [key_s])
                 sub.note_machine(m)
                 spec = tm.band(tm.bnot(tm.eq(v16, 0, W)), tm.ult(v16, toy.n, W)) if L == 32 else False
                 if err is None:
                     ctx.check(spec, 'bv:accepted-implies-32-bytes-and-1<=d<n')
+                    from .c20 import reachable
+                    ctx.check(key_s.obj.id not in reachable(k), 'key-does-not-alias-the-callers-buffer (cached values stay equal to the encodings of the key)')
                     ctx.check(tm.eq(m.toy_sval(T.fld(m, k, T.PRIV_T, 'scalar')), v16, W), 'bv:scalar=d')
                     pub = T.fld(m, k, T.PRIV_T, 'publicKey')
                     ctx.check(tm.eq(m.toy_pget(T.fld(m, pub, T.PUB_T, 'point')), v16, W), 'bv:public-point=d*G')
@@ -130,8 +133,12 @@ def main():
                     B = [tm.var('pre', 8)] + T.be32(x16) + T.be32(y16)
                 else:
                     B = sym_bytes('B', L)
-                k, err = m.call(SECEC + 'NewPublicKey', [m.new_byte_slice(B, 'key')])
+                key_s = m.new_byte_slice(B, 'key')
+                k, err = m.call(SECEC + 'NewPublicKey', [key_s])
                 sub.note_machine(m)
+                if err is None:
+                    from .c20 import reachable
+                    ctx.check(key_s.obj.id not in reachable(k), 'key-does-not-alias-the-callers-buffer (cached encoding stays equal to the encoding of the point)')
                 if L == 33:
                     found, idx = toy.lift(x16, tm.eq(tm.bv('and', B[0], 1, 8), 1, 8))
                     spec = tm.band_all([tm.bor(tm.eq(B[0], 2, 8), tm.eq(B[0], 3, 8)), tm.ult(x16, toy.p, W), found])
@@ -174,8 +181,12 @@ def main():
                 m = new_machine(prog, ctx, gl, value_model=True)
                 c06.install_field_contracts(m)
                 B = sym_bytes('B', L)
-                k, err = m.call(SECEC + 'NewPublicKey', [m.new_byte_slice(B, 'key')])
+                key_s = m.new_byte_slice(B, 'key')
+                k, err = m.call(SECEC + 'NewPublicKey', [key_s])
                 sub.note_machine(m)
+                if err is None:
+                    from .c20 import reachable
+                    ctx.check(key_s.obj.id not in reachable(k), 'key-does-not-alias-the-callers-buffer')
                 acc, kind, x, y = c06.sec1_spec(B)
                 if kind == 'identity':
                     acc = False                      # the point at infinity is not a public key
